@@ -4,6 +4,7 @@ from ..terms import TermBuilder
 from .. import codec
 
 NEED_DEPS = True
+USES_QUERIES = True
 EXPLANATION = (
     "GUARD/CODEC/WHO rules on `<Envelope as CBORTaggedDecodable>::from_untagged_cbor` and what it reaches. Every accept exit is "
     "classified by the CBOR-case arm (and tag value) it lies in. C06.1: under the valuation len(elements) in {0,1} the node "
@@ -372,7 +373,24 @@ def check(ctx):
             ctx.fail('C06.5', ctx.site(b, bi, si), 'elided digest is not built by the length-checking Digest::from_data_ref(..)?: %s' % fmt(t2), key='C06.5')
     # ---- C06.6 strict order / uniqueness
     check_decoder_order(ctx, 'C06.6', dec)
-    # ---- C06.2 assertion map arity
+    # ---- C06.2 assertion map arity: an assertion is accepted only from a map with exactly one entry. The entry count is one atom
+    # (`.len()`, the presence of the first / second `next()` of one iterator over the map, `is_empty()`): the accept exit is reachable
+    # for count 1 only. The CBOR conversion either delegates to the Map conversion or has the same table over the map it extracted.
+    def arity_table(rb, rtb, bi, M):
+        def same(x):
+            x = strip_sites(detry(x))
+            while x[0] == 'call' and call_name(x) in ('iter', 'into_iter', 'deref', 'borrow', 'as_ref', 'clone') and len(x[2]) == 1:
+                x = strip_sites(detry(x[2][0]))
+            return x == M
+        lens = find_terms(rb, rtb, lambda x: (x[0] == 'call' and call_name(x) == 'len' and same(x[2][0])) or (x[0] == 'len' and same(x[1])))
+        empt = find_terms(rb, rtb, lambda x: x[0] == 'call' and call_name(x) == 'is_empty' and same(x[2][0]))
+        verdicts = {}
+        for n in (0, 1, 2, 3):
+            env = {l: n for l in lens}
+            env.update({e: (n == 0) for e in empt})
+            env[('len', M)] = n
+            verdicts[n] = bi in reach_under(rb, rtb, env)
+        return verdicts
     r = F.trait_impl('TryFrom', 'Assertion', 'try_from', trait_full_contains='Map')
     if len(r) != 1:
         ctx.lost('C06.2', 'TryFrom<Map> for Assertion')
@@ -380,19 +398,17 @@ def check(ctx):
         rb = r[0]
         rtb = TermBuilder(F, rb)
         acc = [x for x in accept_sites(rb, rtb)]
-        lens = find_terms(rb, rtb, lambda x: x[0] == 'call' and call_name(x) == 'len' and strip_sites(x[2][0]) == ('param', 1))
         for bi, si, t in acc:
-            if len(lens) != 1:
-                ctx.fail('C06.2', ctx.site(rb, bi, si), 'assertion accept exit is not guarded by a test of the map length', key='C06.2|nolen')
-                continue
-            verdicts = {n: (bi in reach_under(rb, rtb, {lens[0]: n})) for n in (0, 1, 2, 3)}
+            verdicts = arity_table(rb, rtb, bi, ('param', 1))
             if verdicts == {0: False, 1: True, 2: False, 3: False}:
-                ctx.ok('C06.2', ctx.site(rb, bi, si), 'assertion accept reachable iff map length == 1 (valuation table %s)' % verdicts, sample=verdicts)
+                ctx.ok('C06.2', ctx.site(rb, bi, si), 'assertion accept reachable iff the map has exactly one entry (valuation table %s)' % verdicts, sample=verdicts)
+            elif all(verdicts.values()):
+                ctx.fail('C06.2', ctx.site(rb, bi, si), 'assertion accept exit is not guarded by a test of the map length', key='C06.2|nolen')
             else:
                 ctx.fail('C06.2', ctx.site(rb, bi, si), 'assertion accept reachability by map length is %s, expected only 1' % verdicts, key='C06.2|table')
         if not acc:
             ctx.lost('C06.2', 'accept exit of TryFrom<Map> for Assertion')
-    # the CBOR->Assertion conversion must go through that TryFrom<Map>
+    # the CBOR->Assertion conversion goes through that TryFrom<Map>, or applies the same single-entry test to the map it extracted
     r2 = F.trait_impl('TryFrom', 'Assertion', 'try_from', trait_full_contains='CBOR')
     for rb in r2:
         rtb = TermBuilder(F, rb)
@@ -400,8 +416,15 @@ def check(ctx):
             c = callee_of(t)
             if c is not None and c.name in ('try_into', 'try_from'):
                 ctx.ok('C06.2', ctx.site(rb, bi, si), 'CBOR->Assertion delegates to the Map conversion')
+                continue
+            maps = find_terms(rb, rtb, lambda y: y[0] == 'vfield' and y[2] == 'Map' and y[3] == '0' and m_call(y[1], name='as_case') is not None)
+            good = False
+            if len(maps) == 1:
+                good = arity_table(rb, rtb, bi, maps[0]) == {0: False, 1: True, 2: False, 3: False}
+            if good:
+                ctx.ok('C06.2', ctx.site(rb, bi, si), 'CBOR->Assertion accepts only a map with exactly one entry (its own single-entry test over the extracted map)')
             else:
-                ctx.fail('C06.2', ctx.site(rb, bi, si), 'CBOR->Assertion accept exit bypasses the single-entry check: %s' % fmt(t), key='C06.2|bypass')
+                ctx.fail('C06.2', ctx.site(rb, bi, si), 'CBOR->Assertion accept exit bypasses the single-entry check: %s' % fmt(t)[:200], key='C06.2|bypass')
     # ---- C06.7 has_digest guards
     check_has_digest(ctx, 'C06.7')
     # ---- C06.12 public decode entry points
